@@ -116,6 +116,38 @@ def _close_discipline(p, mod, fd, c):
         if not users:
             return False, '{}.{}() is not called from a finally block by the code that creates the object'.format(cls.name, closer.name)
         return True, 'handle kept on the object; {}.{}() closes it and is called in the creator\'s finally'.format(cls.name, closer.name)
+    # idiom 3b: opened into a local that is stored on self further down: until then only the local knows the handle
+    if isinstance(st, ast.Assign) and len(st.targets) == 1 and isinstance(st.targets[0], ast.Name) and st.value is c and isinstance(getattr(fd, 'parent', None), ast.ClassDef):
+        svar = st.targets[0].id
+        blk = None
+        for field in ('body', 'orelse', 'finalbody'):
+            seq = getattr(st.parent, field, None)
+            if isinstance(seq, list) and st in seq:
+                blk = seq
+        if blk is not None:
+            after = blk[blk.index(st) + 1:]
+            keep = None
+            for j, s2 in enumerate(after):
+                if isinstance(s2, ast.Assign):
+                    tg, vl = s2.targets[0], s2.value
+                    pairs = list(zip(tg.elts, vl.elts)) if isinstance(tg, (ast.Tuple, ast.List)) and isinstance(vl, (ast.Tuple, ast.List)) and len(tg.elts) == len(vl.elts) else [(tg, vl)]
+                    for t_, v_ in pairs:
+                        if is_name(v_, svar) and (dotted(t_) or '').startswith('self.'):
+                            keep = (j, dotted(t_))
+                if keep:
+                    break
+            if keep is not None:
+                between = after[:keep[0]]
+                risky = [s2 for s2 in between if any(isinstance(x, ast.Call) for x in ast.walk(s2))]
+                in_try = st.parent if isinstance(st.parent, ast.Try) and (st.parent.finalbody or st.parent.handlers) else None
+                if risky and in_try is None:
+                    return False, 'the file opened here is known only to the local `{}` while `{}` runs (it is stored in {} afterwards): if that statement raises - e.g. the first record of the file cannot be decoded - nothing closes the descriptor'.format(svar, node_text(risky[0], 70), keep[1])
+                if not risky:
+                    attr = keep[1]
+                    cls = fd.parent
+                    closers = [m for m in cls.body if isinstance(m, ast.FunctionDef) and any(isinstance(x, ast.Call) and dotted(x.func) == attr + '.close' for x in ast.walk(m))]
+                    if closers:
+                        return True, 'opened into a local and stored in {} at once; {}.{}() closes it'.format(attr, cls.name, closers[0].name)
     # idiom 2b: `stream = open(..)` directly followed by `flag = True`, inside a try whose finally closes the stream under the flag
     if isinstance(st, ast.Assign) and len(st.targets) == 1 and isinstance(st.targets[0], ast.Name) and st.value is c:
         svar = st.targets[0].id
@@ -629,3 +661,76 @@ def rule_fl_none_complete(cx, rep, port):
         jn = [n_ for n_ in g.nodes if cfgmod.node_contains(n_, lambda x: x is j)]
         ok = bool(jn) and any(g.dominates(rn, jn[0], dom) for r in recs for rn in g.nodes if cfgmod.node_contains(rn, lambda x, r=r: x is r))
         rep.decide(ok, 'sub-array join `{}`'.format(node_text(arr, 40)), j, 'the joined sub-array is normalised (None -> \'\' with the flag) before it is joined', 'the array joined here (`{}`) was not itself normalised first: None elements of a nested list reach the output as empty text without the "None values in output" warning'.format(node_text(arr, 60)))
+
+
+def rule_fl_collect(cx, rep, port):
+    """query(): after the writer was finished, the warnings of all three sources - input iterator, join table (when the query has
+    one) and output writer - are appended to the caller's warning list on every normal path: a warning that was raised inside an
+    adapter but never collected 'did not appear although the anomaly occurred'."""
+    from .. import pathsem
+    p = cx.port(port)
+    mod = cx.engine_mod(port)
+    fd = p.func(mod, 'query')
+    params = [a.arg for a in fd.args.args]
+    if len(params) < 4:
+        raise Undecided('anchor vanished: query(query_text, input_iterator, output_writer, output_warnings, ...)', fd)
+    it_p, wr_p, out_p = params[1], params[2], params[3]
+    ps = pathsem.paths(fd)
+    if ps is None:
+        rep.undecided('warning collection', fd, 'query() is not summarisable as paths')
+        return
+
+    def source_of(c):
+        """which get_warnings() result does this statement-level call add to the caller's list?"""
+        if not (isinstance(c, ast.Call) and isinstance(c.func, ast.Attribute) and c.func.attr in ('extend', 'push') and is_name(c.func.value, out_p) and c.args):
+            return None
+        a = c.args[0]
+        if isinstance(a, ast.Starred):
+            a = a.value
+        while isinstance(a, ast.Await):
+            a = a.value
+        if isinstance(a, ast.Call) and isinstance(a.func, ast.Attribute) and a.func.attr == 'get_warnings':
+            return dotted(a.func.value) or node_text(a.func.value, 2000)
+        return None
+    n = 0
+    for q in ps:
+        if q.kind == 'raise':
+            continue
+        n += 1
+        got = [source_of(c) for c in q.calls]
+        got = [g for g in got if g]
+        have_it = any(g == it_p or g.endswith('.input_iterator') for g in got)
+        have_wr = any(g == wr_p or g.endswith('.writer') or g.endswith('.output_writer') for g in got)
+        have_join = any(g.endswith('join_map_impl') or g.endswith('join_map') for g in got)
+        # does this path have a join?  (atom `query_context.join_map_impl is not None` / truthiness)
+        joined = None
+        for atom, pol in pathsem.atoms(q.conds):
+            t = node_text(atom, 2000)
+            if 'join_map_impl' in t or 'join_map' in t:
+                if isinstance(atom, ast.Compare) and len(atom.ops) == 1 and is_none(atom.comparators[0]):
+                    joined = (isinstance(atom.ops[0], (ast.IsNot, ast.NotEq))) == pol
+                elif isinstance(atom, (ast.Attribute, ast.Name)) and (getattr(atom, 'attr', None) or getattr(atom, 'id', '')).startswith('join_map'):
+                    joined = pol
+        if not have_it:
+            rep.violated('warning collection', q.node, 'a normal path of query() does not add the input iterator\'s warnings (defective quoting, inconsistent field counts, BOM) to the caller\'s list')
+            return
+        if not have_wr:
+            rep.violated('warning collection', q.node, 'a normal path of query() does not add the output writer\'s warnings (None values, separators inside fields) to the caller\'s list')
+            return
+        if joined is True and not have_join:
+            rep.violated('warning collection', q.node, 'on the path with a join table its warnings are not added to the caller\'s list')
+            return
+        if joined is None and not have_join:
+            rep.violated('warning collection', q.node, 'query() never collects the warnings of the join table: anomalies in table B go unreported')
+            return
+    if not n:
+        rep.undecided('warning collection', fd, 'no normal path of query() found')
+        return
+    rep.holds('warning collection', fd, 'input iterator, join table (when present) and output writer warnings are appended on every normal path ({} path(s))'.format(n))
+    # ... after the writer was finished (finish() may itself produce warnings, e.g. from buffered records)
+    g = cfgmod.CFG(fd)
+    fin = [x for x in g.nodes if cfgmod.node_contains(x, lambda y: isinstance(y, ast.Call) and isinstance(y.func, ast.Attribute) and y.func.attr == 'finish' and (dotted(y.func.value) or '').endswith('writer'))]
+    gw = [x for x in g.nodes if cfgmod.node_contains(x, lambda y: isinstance(y, ast.Call) and isinstance(y.func, ast.Attribute) and y.func.attr == 'get_warnings' and ((dotted(y.func.value) or '') == wr_p or (dotted(y.func.value) or '').endswith('writer')))]
+    if fin and gw:
+        dom = g.dominators()
+        rep.decide(all(any(g.dominates(f, w_, dom) for f in fin) for w_ in gw), 'warnings after finish', gw[0].ast, 'the writer\'s warnings are read after writer.finish()', 'the writer\'s warnings are read before writer.finish() has run: warnings produced while flushing buffered records are lost')
